@@ -79,6 +79,14 @@ func c19() int {
 	sort.Strings(hsorted)
 	for _, n := range hsorted {
 		headers = append(headers, map[string]string{n: "POST"}, map[string]string{n: "POST", "Origin": "http://example.test"})
+		// values a guard could take for "harmless": a safe method name, a truthy flag
+		safe := []string{"GET", "true"}
+		if rep.Thorough() {
+			safe = []string{"GET", "HEAD", "OPTIONS", "true", "1"}
+		}
+		for _, v := range safe {
+			headers = append(headers, map[string]string{n: v})
+		}
 	}
 	variants := func(path string) []string {
 		out := []string{path, path + "/", strings.Replace(path, "/api/ledger", "/api/ledger/", 1), strings.ToUpper(path), strings.Replace(path, "/v2", "/%76%32", 1), strings.Replace(path, "transactions", "transactions%2F", 1)}
